@@ -1,6 +1,6 @@
 (* props/C01.v -- Property C01: uncertain-number arithmetic computes the same values as plain
    arithmetic (real kernel; the complex kernel is covered by correspondence, see DESIGN). *)
-From Coq Require Import ZArith List Bool Reals.
+From Coq Require Import ZArith List Bool Reals Lra.
 From Coquelicot Require Import Coquelicot.
 From GTCV Require Import Num RNum Vector VectorFacts Opres KTypes Kernel DerivTable ChainRule ValueFacts.
 Import ListNotations.
@@ -49,3 +49,16 @@ Proof.
   intros; split; [apply apply_bin_role_irrelevant_un | apply apply_bin_role_irrelevant_nu]; auto.
 Qed.
 Print Assumptions C01_role_irrelevant_mixed.
+
+(* phase(x) of an uncertain REAL number is the constant 0 in lib.py (UncertainReal._phase); the
+   plain value cmath.phase(x) is pi for x < 0.  The value theorem above therefore carries the
+   side condition 0 < x for phase ([reg_un]); for negative x the statement is FALSE of the
+   faithful model (known finding C01-phase-negative-real) *)
+Theorem C01_phase_negative_refuted :
+  exists x y, g_unop RNum U_phase x = Ok (OConst y) /\ y = 0 /\ unop_R U_phase x = PI /\ PI <> 0.
+Proof.
+  exists (-1), (IZR 0 * powerRZ 2 0). split; [reflexivity|]. split; [simpl; ring|]. split.
+  - unfold unop_R. destruct (Rlt_dec (-1) 0); [reflexivity|lra].
+  - apply PI_neq0.
+Qed.
+Print Assumptions C01_phase_negative_refuted.
